@@ -362,8 +362,8 @@ class Server(object):
                     acts.append(("deliver", jid))
         return acts
 
-    def fire(self, act):
-        kind, jid = act
+    def fire(self, act, fault=None):
+        kind, jid = act[0], act[1]
         conn = self.conns[jid]
         if kind == "accept":
             conn.pending_connect = False
@@ -374,7 +374,15 @@ class Server(object):
         elif kind == "process":
             self.process(jid, conn.inbound.popleft())
         elif kind == "deliver":
-            node, meta = self.outbound[jid].popleft()
+            node, meta = self.outbound[jid][0]
+            if fault == "dup" and node.tag == "message":
+                self.fault_log.append(("dup", node["id"], jid))
+                self._to_client(conn, clone(node))          # delivered now, and once more later
+                return
+            self.outbound[jid].popleft()
+            if fault == "corrupt" and node.tag == "message":
+                self.fault_log.append(("corrupt", node["id"], jid))
+                node = self.corrupted(node)
             self._to_client(conn, node)
 
     def run(self, choose=None, limit=10000):
@@ -493,21 +501,25 @@ class Server(object):
         faults = self.faults.get((mid, target), set())
         if "corrupt" in faults:
             faults.discard("corrupt")
-            bad = clone(node)
-            encs = bad.getAllChildren("enc")
-            if encs:
-                e = encs[-1]
-                data = bytearray(e.getData())
-                pos = len(data) - 12 if len(data) > 24 else len(data) // 2
-                data[pos] ^= 0x5A
-                e.data = bytes(data)
-                self.fault_log.append(("corrupt", mid, target))
-                node = bad
+            self.fault_log.append(("corrupt", mid, target))
+            node = self.corrupted(node)
         self.push(target, node, mid=mid)
         if "dup" in faults:
             faults.discard("dup")
             self.fault_log.append(("dup", mid, target))
             self.push(target, clone(node), mid=mid)
+
+    def corrupted(self, node):
+        """the same stanza with one byte of its last ciphertext flipped (inside the authenticated part)"""
+        bad = clone(node)
+        encs = bad.getAllChildren("enc")
+        if encs:
+            e = encs[-1]
+            data = bytearray(e.getData())
+            pos = len(data) - 12 if len(data) > 24 else len(data) // 2
+            data[pos] ^= 0x5A
+            e.data = bytes(data)
+        return bad
 
     def process_receipt(self, jid, node):
         to = node["to"]
